@@ -73,4 +73,24 @@ CHECKS = {
              "shards": {"quick": 1, "thorough": 16}, "timeout": {"quick": 600, "thorough": 7200}},
         ],
     },
+    "C01": {
+        "rule": ("a position-coded client stream (0 .. 5 x the matching limit, sizes biased to 0/1/2047-2049/4095-4097/8191-8193/10239-10241, optionally "
+                 "preceded by a PROXY v1/v2 header) delivered in a generated segmentation (one read, exact 2 KiB chunks, 1-byte trickle, random cuts) "
+                 "through a generated deterministic route list: leading/trailing decoy routes whose matchers read to generated depths, matchers "
+                 "verif_need/peek/regexp{count}/proxy_protocol/tls, handler chains of verif_take{k}, proxy_protocol, throttle, tee, nested subroute "
+                 "(depth <= 3), ended by a recorder, echo or the draining fallback; the same plans behind real TLS termination (crypto/tls client, wire "
+                 "re-segmented) and through Server.handle over loopback TCP. Oracle: a reference consumer model, byte equality per recorder, tee branch "
+                 "and echoed stream. Non-trivial = a matcher inspected >=1 byte and a handler then read >=1 byte; distinct = distinct (routes, stream, cuts)."),
+        "assumptions": ["each generated list has exactly one matching route: which of several decidable routes runs first is C02's subject",
+                        "matcher depths stay within the matching-buffer room (the limit also counts consumed bytes still held; exhaustion is C05's subject)",
+                        "PROXY v2 headers carry no TLVs here (the parser in use rejects them; see C12)"],
+        "min_classes": {"quick": {"C01/tee": 500, "C01/proxy_protocol": 500, "C01/subroute": 1000, "C01/tls": 300, "C01/stream-larger-than-limit": 300,
+                                  "C01/matcher-deeper-than-one-chunk": 200, "C01/server-tcp": 200, "C01/take": 2000}},
+        "runs": [
+            {"name": "scripted", "pkg": "./c01", "run": "TestReplay|TestStreamIntegrity$", "rapid_checks": {"quick": 6000, "thorough": 400000},
+             "shards": {"quick": 2, "thorough": 16}, "timeout": {"quick": 600, "thorough": 7200}},
+            {"name": "tls+server", "pkg": "./c01", "run": "TestStreamIntegrityBehindTLS|TestStreamIntegrityServerTCP", "rapid_checks": {"quick": 700, "thorough": 30000},
+             "shards": {"quick": 2, "thorough": 16}, "timeout": {"quick": 600, "thorough": 7200}},
+        ],
+    },
 }
